@@ -88,6 +88,7 @@ def mutate(ctx, config, rng, prefix, rho, G, gser, a, cv, C33, proof):
     for off, val in ((o, nn), (o + 32, ll)):
         for nv_, cl in ((n, "n"), (2**256 - 1, "max"), (val + n if val + n < 2**256 else n + 1, "plus_order")):
             V(proof[:off] + b32(nv_) + proof[off + 32:], "mut:scalar_ge_n:" + cl)
+        V(proof[:off] + b32((n - val) % n) + proof[off + 32:], "mut:scalar_negated"); V(proof[:off] + b32((val + 1) % n) + proof[off + 32:], "mut:scalar_plus_1")
     V(proof + b'\x00', "mut:len+1"); V(proof[:-1], "mut:len-1"); V(proof + bytes(65), "mut:extra_round"); V(proof[65:] if rounds else proof[:-32], "mut:missing_round")
     if len(proof) <= 64 + 65 * 2 and rng.random() < 0.5:
         # every length 0 .. len+70: the valid bytes truncated or followed by padding; only the exact length may be accepted
